@@ -46,6 +46,11 @@ pub struct BookCase {
     pub tie: bool,
     pub ops: Vec<Op>,
     pub drain: bool,
+    /// bit (k mod 64) set: after operation k the book's market-data getters are NOT called (orders, trades and
+    /// clock are still read; the views are taken as recomputed from the order list), so that state which a getter
+    /// call would refresh stays as the mutating operations left it
+    #[serde(default)]
+    pub quiet: u64,
 }
 
 #[derive(Clone, Copy, Debug, Default)]
@@ -92,6 +97,7 @@ impl Failure {
 /// Measured features of one executed history (for non-triviality rules and class counters).
 #[derive(Clone, Debug, Default)]
 pub struct Features {
+    pub quiet_ops: u64,
     pub ops_executed: u64,
     pub ops_skipped: u64,
     pub inserted_advances: u64,
@@ -442,6 +448,12 @@ pub fn build_book(case: &BookCase) -> Box<dyn DynBook> {
     run.real
 }
 
+/// VERIF_NO_QUIET=1 switches the quiet steps off (used to demonstrate what they add)
+fn no_quiet() -> bool {
+    static V: std::sync::OnceLock<bool> = std::sync::OnceLock::new();
+    *V.get_or_init(|| std::env::var("VERIF_NO_QUIET").is_ok())
+}
+
 impl<'a> Run<'a> {
     fn go(&mut self) -> Result<(), Failure> {
         let mut pre = capture(self.real.as_ref());
@@ -776,7 +788,20 @@ impl<'a> Run<'a> {
         }
         self.feat.ops_executed += 1;
 
-        let post = capture(self.real.as_ref());
+        let quiet = !is_drain && ops_left > 1 && (self.case.quiet >> (step % 64)) & 1 == 1 && !no_quiet();
+        let cap = |b: &dyn DynBook, tick: u32, levels: usize| -> Obs {
+            if quiet {
+                let orders = b.orders();
+                let views = crate::obs::recompute_views(&orders, tick, levels);
+                Obs { time: b.get_time(), trade_vol: b.get_trade_vol(), orders, trades: b.trades(), views }
+            } else {
+                capture(b)
+            }
+        };
+        let post = cap(self.real.as_ref(), self.case.tick, self.case.levels);
+        if quiet {
+            self.feat.quiet_ops += 1;
+        }
         self.feat.max_orders = self.feat.max_orders.max(post.orders.len());
         if let Some(id) = target {
             if id >= post.orders.len() || id >= self.is_market.len() {
@@ -789,7 +814,7 @@ impl<'a> Run<'a> {
 
         // ---- lock-step original vs reloaded (C07)
         if let Some(t) = self.twin.as_ref() {
-            let o = capture(t.as_ref());
+            let o = cap(t.as_ref(), self.case.tick, self.case.levels);
             if let Some(d) = diff_obs(&post, &o) {
                 return Err(self.fail("C07", "C07 reloaded book diverges", step, op, format!("reloaded vs original: {}", d)));
             }
